@@ -37,10 +37,14 @@ type FaultCase struct {
 			Echo  *Echo  `json:"echo"`
 			// a get-proof-by-hash reply described proof by proof (CTFEFaults!ProofLists)
 			Proofs []ProofDesc `json:"proofs"`
+			// get-entry-and-proof: the request shape the absent part is crossed with (CTFEFaults!EntryShapes)
+			Shape *EntryShape `json:"shape"`
 		} `json:"fault"`
 		Pos   int    `json:"pos"`
 		Mask  bool   `json:"mask"`
 		Class string `json:"class"`
+		// the method token of a wrongMethodToken case (CTFEFaults!MethodTokens)
+		Method string `json:"method"`
 		// the configured InstanceOptions.ErrorMapper (CTFEFaults!Mappers; "" = none) and what it says to the injected
 		// error (0: it declines / there is none)
 		Mapper string `json:"mapper"`
@@ -57,6 +61,41 @@ type Echo struct {
 	Len       string `json:"len"`
 	Ext       string `json:"ext"`
 	Body      string `json:"body"`
+}
+
+// EntryShape mirrors an element of CTFEFaults!EntryShapes: the (leaf_index, tree_size) of a get-entry-and-proof request.
+type EntryShape struct {
+	Leaf int `json:"leaf"`
+	Size int `json:"size"`
+}
+
+// Name is the stable description of a shape: which leaf of what kind of tree (the numbers themselves do not matter).
+func (s *EntryShape) Name() string {
+	leaf, tree := "later-leaf", "larger-tree"
+	if s.Leaf == 0 {
+		leaf = "first-leaf"
+	}
+	if s.Size == 1 {
+		tree = "single-leaf-tree"
+	}
+	return leaf + "," + tree
+}
+
+// methodTokenName is the stable description of a wrong method token.
+func methodTokenName(ep, tok string) string {
+	right := "GET"
+	if strings.HasPrefix(ep, "add-") {
+		right = "POST"
+	}
+	switch {
+	case strings.ToUpper(tok) == right:
+		return "case-variant-of-own-method"
+	case tok != strings.ToUpper(tok):
+		return "case-variant-of-other-method"
+	case tok == "GET" || tok == "POST":
+		return "other-ct-method"
+	}
+	return "other-standard-method"
 }
 
 // ProofDesc mirrors one proof of CTFEFaults!ProofList: the leaf index it is for, whether (and how) one of its nodes has
@@ -487,6 +526,8 @@ func badRequest(w *World, ep, class string) (method, rawQuery string, body []byt
 	rawQuery = valid[ep]
 	const over = "9223372036854775808"
 	switch class {
+	case "wrongMethodToken":
+		method = "" // the caller sets the token of the case; query / body stay the valid ones
 	case "wrongMethod":
 		if method == "GET" {
 			method = "POST"
@@ -620,7 +661,7 @@ func TestFaults(t *testing.T) {
 	if err != nil {
 		t.Fatal(err)
 	}
-	rep := vh.NewReport("cctfe-faults", "complete matrix of CTFEFaults.tla: endpoint x backend RPC x (16 gRPC codes and an error without a gRPC status, each under no / an all-declining / a partial / a total InstanceOptions.ErrorMapper; malformed-reply classes incl. get-proof-by-hash replies of 1-3 proofs with ascending / descending / equal leaf indices and any subset of them malformed) x fault position in a three-request sequence x masking, and endpoint x bad-parameter class; executed on a real instance whose backend replies are rewritten by an interceptor; non-trivial = distinct (endpoint, fault or parameter class, expected status class)")
+	rep := vh.NewReport("cctfe-faults", "complete matrix of CTFEFaults.tla: endpoint x backend RPC x (16 gRPC codes and an error without a gRPC status, each under no / an all-declining / a partial / a total InstanceOptions.ErrorMapper; malformed-reply classes incl. get-proof-by-hash replies of 1-3 proofs with ascending / descending / equal leaf indices and any subset of them malformed) and get-entry-and-proof replies with an absent part x the request shape (first / later / last leaf of a tree of 1, 2, 4, 5 leaves) x fault position in a three-request sequence x masking, and endpoint x bad-parameter class incl. every wrong method TOKEN (other standard methods and the letter-case variants of GET and POST); executed on a real instance whose backend replies are rewritten by an interceptor; non-trivial = distinct (endpoint, fault or parameter class, expected status class)")
 	// one instance per configuration: masking on / off x the configured ErrorMapper
 	worlds := map[string]*faultWorld{}
 	for i := range cases {
@@ -640,14 +681,23 @@ func TestFaults(t *testing.T) {
 		env, be := fw.w.Env, fw.w.Env.Backend
 		if c.T == "param" {
 			method, raw, body := badRequest(fw.w, c.Ep, c.Class)
+			fp := fmt.Sprintf("param:%s:%s", c.Ep, c.Class)
+			tokNote := ""
+			if c.Class == "wrongMethodToken" {
+				if c.Method == "" {
+					t.Fatalf("harness: wrongMethodToken case without a token: %+v", c)
+				}
+				method = c.Method
+				fp += "(" + methodTokenName(c.Ep, c.Method) + ")"
+				tokNote = " (method token " + strconv.Quote(c.Method) + ")"
+			}
 			n0 := be.NumCalls()
 			nrec := len(env.ReqLog.Recs)
 			code, rbody, err := env.DoRaw(method, epPath[c.Ep], raw, body)
-			fp := fmt.Sprintf("param:%s:%s", c.Ep, c.Class)
 			if err != nil {
 				rep.Violate(fp+":panic", err.Error(), fc)
 			} else if !inClass(code, "4xx") || be.NumCalls() != n0 {
-				rep.Violate(fp, fmt.Sprintf("%s with %s: expected 4xx before any backend call, got %d with %d backend calls: %s", c.Ep, c.Class, code, be.NumCalls()-n0, rbody), fc)
+				rep.Violate(fp, fmt.Sprintf("%s with %s%s: expected 4xx before any backend call, got %d with %d backend calls: %s", c.Ep, c.Class, tokNote, code, be.NumCalls()-n0, rbody), fc)
 			}
 			for _, r := range env.ReqLog.Recs[nrec:] {
 				if len(r.SCTs) > 0 {
@@ -675,7 +725,20 @@ func TestFaults(t *testing.T) {
 		if c.Fault.Class == "proofList" {
 			fname += "(" + proofListName(c.Fault.Proofs) + ")"
 		}
+		request := fw.valid[c.Ep]
+		if sh := c.Fault.Shape; sh != nil {
+			// the absent part is crossed with the request: all three requests of the sequence have the case's shape
+			fname += "(" + sh.Name() + ")"
+			qv := q("leaf_index", sh.Leaf, "tree_size", sh.Size)
+			request = func() (int, []byte, error) {
+				c, b, _, err := env.Do("GET", ct.GetEntryAndProofPath, qv, nil)
+				return c, b, err
+			}
+		}
 		fdesc := fname
+		if sh := c.Fault.Shape; sh != nil {
+			fdesc = fmt.Sprintf("%s(leaf_index=%d,tree_size=%d)", c.Fault.Class, sh.Leaf, sh.Size)
+		}
 		if c.Fault.Echo != nil {
 			fname += "(" + c.Fault.Echo.Deviations() + ")"
 			fdesc += "(" + c.Fault.Echo.String() + ")"
@@ -696,7 +759,7 @@ func TestFaults(t *testing.T) {
 		}
 		for k := 1; k <= 3; k++ {
 			nrec := len(env.ReqLog.Recs)
-			code, body, err := fw.valid[c.Ep]()
+			code, body, err := request()
 			var rl *ctfeenv.ReqRecord
 			if len(env.ReqLog.Recs) > nrec {
 				rl = env.ReqLog.Recs[nrec]
@@ -735,6 +798,21 @@ func TestFaults(t *testing.T) {
 				if !inClass(code, "5xx") {
 					rep.Violate(fp+fmt.Sprintf(":want=5xx-or-a-well-formed-proof:got=%d", code), fmt.Sprintf("%s with backend reply %s: status %d: %s", c.Ep, fdesc, code, strings.TrimSpace(string(body))), fc)
 				}
+			} else if fc.Expect == "200" {
+				// named clause SingleLeafEmptyPath: for tree_size = 1 the reply without proof hashes is the honest one
+				if c.Fault.Shape == nil || c.Fault.Shape.Size != 1 || c.Fault.Class != "emptyProofHashes" {
+					t.Fatalf("harness: the specification demands 200 for a case that is not SingleLeafEmptyPath: %+v", c)
+				}
+				var er ct.GetEntryAndProofResponse
+				if code != 200 {
+					rep.Violate(fp+fmt.Sprintf(":want=200:got=%d", code), fmt.Sprintf("%s with the honest reply %s: status %d: %s", c.Ep, fdesc, code, strings.TrimSpace(string(body))), fc)
+				} else if err := json.Unmarshal(body, &er); err != nil || len(er.AuditPath) != 0 || len(er.LeafInput) == 0 {
+					rep.Violate(fp+":200-not-the-single-leaf-answer", fmt.Sprintf("%s %s: 200 whose body is not (leaf_input, empty audit_path): %s", c.Ep, fdesc, body), fc)
+				}
+				if rl != nil && (len(rl.Statuses) != 1 || rl.Statuses[0] != code) {
+					rep.Violate(fp+":requestlog-status", fmt.Sprintf("RequestLog.Status %v for HTTP %d", rl.Statuses, code), fc)
+				}
+				continue
 			} else if !inClass(code, fc.Expect) {
 				rep.Violate(fp+fmt.Sprintf(":want=%s:got=%d", fc.Expect, code), fmt.Sprintf("%s with backend fault %s: status %d, the property demands %s: %s", c.Ep, fdesc, code, fc.Expect, strings.TrimSpace(string(body))), fc)
 			}
